@@ -359,7 +359,7 @@ class EcoMAX(PhysicalDevice):
     ) -> EcomaxNumber | None:
         """Add thermostat profile parameter to the dataset."""
         if values:
-            return EcomaxNumber(
+            return EcomaxNumber.create_or_update(
                 device=self, description=THERMOSTAT_PROFILE_PARAMETER, values=values
             )
 
